@@ -204,9 +204,14 @@ SAllowed(p, share) ==
   ELSE ch
 
 \* quick tier: every subset of the tree levels, the env source toggled by parity (thorough: every subset)
-SubsetsOf(p, sh) ==
-  IF Tier = "thorough" \/ Len(ChainOf(p)) < 5 THEN SUBSET SAllowed(p, sh)
+QuickBase(p, sh) ==
+  IF Len(ChainOf(p)) < 5 THEN SUBSET SAllowed(p, sh)
   ELSE {SS \in SUBSET SAllowed(p, sh) : SS = {} \/ ("env" \in SS) = (Cardinality(SS \ {"env"}) % 2 = 0)}
+\* quick tier, file-sharing worlds: nothing, one level, or all tree levels of the chain
+SubsetsOf(p, sh) ==
+  IF Tier = "thorough" THEN SUBSET SAllowed(p, sh)
+  ELSE IF sh = "none" THEN QuickBase(p, sh)
+  ELSE {SS \in QuickBase(p, sh) : Cardinality(SS) <= 1 \/ SS \cup {"env"} = SAllowed(p, sh) \cup {"env"}}
 
 SibModes(p) == IF Tier = "thorough" THEN {FALSE, TRUE} ELSE IF p \in MapParams THEN {TRUE} ELSE {FALSE}
 
